@@ -50,7 +50,7 @@ class QuantTreePart(Part):
         return h
 
     def tree_history_once(self, rng, budget):
-        tname = rng.choice(["i64", "i64", "f64"])
+        tname = rng.choice(["i64", "i64", "i64", "f64", "f64", "str"])
         codec = Q.CODECS[tname]
         sh = Q.Shapes(codec)
         ops = []
@@ -58,6 +58,8 @@ class QuantTreePart(Part):
 
         def lit():
             v = rng.randrange(rng.choice([3, 12, 40]))
+            if codec is Q.StrCodec:
+                return Q.str_item(v)
             return str(v) if codec is Q.IntCodec else Q.rank_hex(v / 2.0)
 
         def attempt(line):
@@ -233,7 +235,9 @@ class QuantTreePart(Part):
         # integer identity: sum over all leaves of weightBelow(y) = #leaves * trueCountBelow(y), both criteria, every distinct y
         ts = sorted(truth)
         ys = sorted(set(truth))
-        if ys:
+        if ys and codec is Q.StrCodec:
+            ys = ys + [(ys[-1][0] + 1, ""), (0, "")]
+        elif ys:
             ys = ys + [ys[-1] + 1, ys[0] - 1]
         tot_le = {y: 0 for y in ys}
         tot_lt = {y: 0 for y in ys}
